@@ -63,6 +63,10 @@ func runC03(w *World) {
 		return
 	}
 	p := s.P
+	prior := false
+	if variant != 2 {
+		prior = s.PriorSession(w)
+	}
 	c := s.E.OpenConn(p, dir, time.Minute)
 	if c == nil {
 		w.HarnessError("C03: no connection")
@@ -124,7 +128,11 @@ func runC03(w *World) {
 		// (a task sleeping inside the handler is not runnable, so Quiesce alone
 		// would return while the FSM is still busy)
 		w.WaitUntil("c03.drain", 5*time.Minute, func() bool {
-			return (p.Plug.NUpd >= len(sent) && p.Plug.st == plUp) || p.Plug.st == plDown
+			n := p.Plug.NUpd
+			if prior {
+				n--
+			}
+			return (n >= len(sent) && p.Plug.st == plUp) || p.Plug.st == plDown
 		})
 		w.Quiesce()
 	}
@@ -133,6 +141,9 @@ func runC03(w *World) {
 		if cb.Kind == "upd" {
 			got = append(got, cb.Update)
 		}
+	}
+	if prior && len(got) > 0 {
+		got = got[1:] // the prior session's single UPDATE
 	}
 	w.Rel(fmt.Sprintf("%v|v%d|%d|%d|%s", lens, variant, notifAt, len(got), dir))
 	w.Sample["messages"] = fmt.Sprint(lens)
@@ -185,7 +196,7 @@ func runC03(w *World) {
 			w.Violate("C03/handler-notification/not-verbatim", "handler returned NOTIFICATION %x; corebgp wrote %s", wantBody, descFrames(fs))
 			return
 		}
-		if !p.Plug.IsDown() || p.Plug.NClose != 1 || !c.LocalClosed() {
+		if !p.Plug.IsDown() || p.Plug.NClose != p.Plug.NEst || !c.LocalClosed() {
 			w.Violate("C03/handler-notification/session-not-ended", "after the handler's NOTIFICATION: callback state %s, OnClose count %d, connection closed %v", p.Plug.StName(), p.Plug.NClose, c.LocalClosed())
 			return
 		}
